@@ -12,7 +12,8 @@ import Glom.Model.C01Env2
           "star":bool (optional; false: glom.core.PATH_STAR = False),
           "defaults":bool (optional; false: Glommer(register_default_types=False)),
           "events":[ {"reg":{"cls":c,"get":Handler|null,"exact":b}}
-                   | {"glom":{"spelling":Spelling,"target":Val}} …],     at least one glom event
+                   | {"glom":{"spelling":Spelling,"target":Val}}
+                   | {"probe":{"target":Val}} …],                         at least one glom event
           "impl":[ {"obs":Obs,"log":[n…]} … ] }                          one per glom event
   Spelling: {"text":"a.b.c"} | {"parts":[Part…]}
   Part:     {"seg":Val} | {"t":[[op,Val]…]} | {"path":[Part…]}
@@ -103,6 +104,8 @@ def eventOfJson (star : Bool) (j : Json) : Except String Event := do
       if let .ok t := sp.getObjValAs? String "text" then return partsOfTextS star t.toList
       else listOfJson partOfJson (← sp.getObjVal? "parts") : Except String (List Part2))
     return .glom (stepsOfParts2 parts) (← valOfJson (← g.getObjVal? "target"))
+  else if let .ok g := j.getObjVal? "probe" then
+    return .probe (← valOfJson (← g.getObjVal? "target"))
   else throw s!"bad event {j.compress}"
 
 def implOfJson (j : Json) : Except String (Obs2 × List Nat) := do
